@@ -45,11 +45,14 @@ func runC18(s *kernel.Sim, _ string) {
 		mu.Unlock()
 	}
 
-	sv := startServers(s, n, p, serverOpts{dot: true, pipelineLimit: uint(limit)})
+	// Requests may carry a deadline shorter than the time the handler takes:
+	// the query is still being processed and still counts.
+	reqTimeout := kernel.Pick(t, []time.Duration{0, 0, 20 * time.Millisecond, 500 * time.Millisecond}, "request-timeout")
+	sv := startServers(s, n, p, serverOpts{dot: true, pipelineLimit: uint(limit), reqTimeout: reqTimeout})
 	defer sv.shutdown()
 
 	burst := t.Range(1, 20, "burst")
-	s.Logf("pipeline limit %d, burst %d, handler hold %v", limit, burst, hold)
+	s.Logf("pipeline limit %d, burst %d, handler hold %v, request timeout %v", limit, burst, hold, reqTimeout)
 
 	r := &runner{s: s}
 	for _, x := range []struct {
@@ -68,6 +71,13 @@ func runC18(s *kernel.Sim, _ string) {
 			}
 
 			frames, end := streamExchange(tk, n, x.addr, x.tc, [][]byte{all}, false)
+			if reqTimeout > 0 && reqTimeout <= hold+400*time.Millisecond {
+				// The handler may outlive the request's deadline; a late
+				// answer is not written.  Only the limit is judged.
+				tk.Probe("handler-outlives-request-deadline")
+
+				return
+			}
 			if len(frames) != burst {
 				tk.Failf("C18/pipeline-unanswered", x.tr+": not every pipelined query was answered",
 					"limit %d burst %d: %d answers, stream end %s", limit, burst, len(frames), end)
